@@ -41,6 +41,7 @@ func (h *transportHandler) HandleLinkEstablished(lnk link.Link) {
 	// use MaybeAsync to avoid deadlocks if the transport author was not careful.
 	h.c.bcast.HoldLockMaybeAsync(func(broadcast func(), getWaitCh func() <-chan struct{}) {
 		defer verifOpDone()
+		defer verifOpEvent("est", lnk)
 		execCtx := h.c.execCtx
 		if execCtx == nil {
 			le.Warn("link established while transport exited, closing link")
@@ -89,6 +90,7 @@ func (h *transportHandler) HandleLinkEstablished(lnk link.Link) {
 func (h *transportHandler) HandleLinkLost(lnk link.Link) {
 	h.c.bcast.HoldLockMaybeAsync(func(broadcast func(), getWaitCh func() <-chan struct{}) {
 		defer verifOpDone()
+		defer verifOpEvent("lost", lnk)
 		// fast path: clear by uuid
 		// check that the entry is this link: a newer link with the same uuid may
 		// have replaced it, and a late loss of the old link must not remove it.
